@@ -1309,10 +1309,21 @@ def nd_method(eng, arr, name):
                 return [a[k] for k in range(a.shape[0])]
             return [tolist(a[k]) for k in range(a.shape[0])]
         return NDArr(tolist(t))
-    if name == 'any':
-        return Builtin('ndarray.any', lambda e, a, k: b_or(*[e.truth(x) for x in flat(arr.data)]))
-    if name == 'all':
-        return Builtin('ndarray.all', lambda e, a, k: b_and(*[e.truth(x) for x in flat(arr.data)]))
+    if name in ('any', 'all'):
+        comb = b_or if name == 'any' else b_and
+
+        def reduce_(e, a, k):
+            ax = k.get('axis', a[0] if a else None)
+            if ax is None:
+                return comb(*[e.truth(x) for x in flat(arr.data)])
+            import numpy as _np
+            o = nd_to_obj(e, arr)
+            moved = _np.moveaxis(o, ax, -1)
+            out = _np.empty(moved.shape[:-1], dtype=object)
+            for ix in _np.ndindex(*moved.shape[:-1]):
+                out[ix] = comb(*[e.truth(x) for x in moved[ix]])
+            return nd_from_obj(out) if out.shape != () else out[()]
+        return Builtin('ndarray.' + name, reduce_)
     if name == 'flat':
         return SList([('conc', flat(arr.data))])
     if name == 'real':
@@ -1542,6 +1553,25 @@ def nd_getitem(eng, arr, idx):
         idx = ite(idx, 1, 0)
     if isinstance(idx, bool):
         idx = int(idx)
+    if isinstance(idx, tuple) and any(isinstance(i, NDArr) for i in idx):
+        # an index tuple with a concrete boolean mask (or integer array) among basic indices: numpy's own advanced indexing
+        import numpy as _np
+        conv = []
+        for i in idx:
+            if isinstance(i, NDArr):
+                fl = flat(i.data)
+                if all(isinstance(v, bool) for v in fl):
+                    conv.append(_np.array(i.data, dtype=bool))
+                elif all(isinstance(v, int) for v in fl):
+                    conv.append(_np.array(i.data, dtype=int))
+                else:
+                    raise EngineError('symbolic array inside an index tuple')
+            elif i is None or i is Ellipsis or isinstance(i, (int, slice)):
+                conv.append(i)
+            else:
+                raise EngineError('symbolic index inside an advanced index tuple')
+        r = nd_to_obj(eng, arr)[tuple(conv)]
+        return nd_from_obj(r) if isinstance(r, _np.ndarray) else r
     o = nd_to_obj(eng, arr)
     r = o[_basic_index(eng, o.shape, idx)]
     import numpy as _np
